@@ -61,19 +61,6 @@ def _isnan(v):
     return v == 'nan' or (isinstance(v, float) and v != v)
 
 
-def _kf_f17(case, subcheck, detail):
-    # SetStrictRanges(min == max on every side, tight=True) -> ZeroDivisionError in the symbolic bounds builder
-    if subcheck != 'C02.no_crash' or not isinstance(detail, dict):
-        return False
-    if detail.get('exception') != 'ZeroDivisionError' or '_symbolic.py' not in detail.get('at', ''):
-        return False
-    ops = [o for o in case.get('ops', []) if o[0] == 'ranges']
-    if not ops or ops[-1][1] is None:
-        return False
-    _, lo, hi, tight, clip = ops[-1]
-    return tight is True and clip is None and all(l is not None and l == h for l, h in zip(lo, hi))
-
-
 def _kf_f18(case, subcheck, detail):
     # ranges with an infinite side installed after generation 0: members outside the box are re-drawn with
     # uniform(-inf, max) = NaN and the cost is evaluated at a NaN coordinate
@@ -95,5 +82,5 @@ def _kf_f19(case, subcheck, detail):
     return con.get('kind') == 'push' or not lab.box_compatible(con, box[0], box[1])
 
 
-KNOWN = {'F17-degenerate-box-tight-crash': _kf_f17, 'F18-infinite-side-midrun-nan': _kf_f18,
+KNOWN = {'F18-infinite-side-midrun-nan': _kf_f18,
          'F19-nm-best-vertex-pushed-without-evaluation': _kf_f19}
